@@ -138,7 +138,7 @@ def check_solo(run, sc, i, scn):
     outcome, res, raw = real_run("parse_xml", [dr.path(name)])
     after = PR.snapshot(dr.d)
     plan = [(None, None)] + [(j, m) for j, (lab, _) in enumerate(raw) if lab not in PR.NOT_FAULTABLE
-                             for m in (["raise", "partial"] if lab == "write" else ["raise"])]
+                             for m in (["raise", "partial", "interrupt", "partial-interrupt"] if lab == "write" else ["raise", "interrupt"] if lab == "create" else ["raise"])]
     ops = []
     for j, mode in plan:
         k = PR.op_index_of_raw(raw, j) if j is not None else None
@@ -155,7 +155,7 @@ def check_solo(run, sc, i, scn):
         if j is None:
             o2, raw2, b2, a2, d2 = outcome, raw, before, after, dr
         else:
-            d2, _ = setup("s%d_f%d%s" % (i, j, mode[0]))
+            d2, _ = setup("s%d_f%d%s" % (i, j, mode.replace("-", "")))
             b2 = PR.snapshot(d2.d)
             o2, _, raw2 = real_run("parse_xml", [d2.path(name)], {j: mode})
             a2 = PR.snapshot(d2.d)
@@ -367,6 +367,50 @@ def check_from_path(run, sc, i):
     return True
 
 
+def check_paths(run, sc, i):
+    """the same input named in other ways — through a symbolic link in another directory, with `..` in the path:
+    the call returns what it returns for the plain path, and both directories hold afterwards exactly what they held"""
+    rng = run.rng
+    c = 7000 + i
+    store, links = sc.sub("store%d" % i), sc.sub("links%d" % i)
+    os.makedirs(os.path.join(store, "sub"), exist_ok=True)
+    real = os.path.join(store, "plant.xml")
+    open(real, "w", encoding="utf-8").write(PR.doc_text(c))
+    variants = {"dotdot": os.path.join(store, "sub", "..", "plant.xml")}
+    try:
+        os.symlink(real, os.path.join(links, "current.xml"))
+        variants["symlink to the file"] = os.path.join(links, "current.xml")
+        os.symlink(store, os.path.join(links, "dir"))
+        variants["symlinked directory"] = os.path.join(links, "dir", "plant.xml")
+    except OSError:
+        pass
+    lone = lone_fp(run, sc, "plant.xml", c)
+    for how, path in variants.items():
+        before = (PR.snapshot(store), sorted(os.listdir(links)))
+        o, res, raw = real_run("parse_xml", [path])
+        case = {"input_named_by": how, "path": path.replace(sc.dir, "<scratch>")}
+        run.case(case, tag="path:" + how)
+        problems = []
+        if (PR.snapshot(store), sorted(os.listdir(links))) != before:
+            problems.append("directories %r / %r -> %r / %r" % (sorted(before[0]), before[1], listing(store), sorted(os.listdir(links))))
+        if res is None or PR.fingerprint(res) != lone:
+            problems.append("the call does not return the lone result: %r" % (o,))
+        if not problems:
+            # … and with one operation failing
+            idx = [j for j, (lab, _) in enumerate(raw) if lab not in PR.NOT_FAULTABLE and lab not in PR.SWALLOWED]
+            for j in rng.sample(idx, min(len(idx), 3)):
+                o2, _, _ = real_run("parse_xml", [path], {j: "raise"})
+                if (PR.snapshot(store), sorted(os.listdir(links))) != before:
+                    problems.append("with call %d (%s) failing: directories -> %r / %r" % (j, raw[j][0], listing(store), sorted(os.listdir(links))))
+                    break
+        if problems:
+            run.violation(case, {"what": "; ".join(problems), "calls": raw})
+            return False
+    shutil.rmtree(store, ignore_errors=True)
+    shutil.rmtree(links, ignore_errors=True)
+    return True
+
+
 def explore(run):
     missing = PR.hooks_present()
     thorough = run.tier == "thorough"
@@ -385,6 +429,9 @@ def explore(run):
                 return
         for i in range(3 if thorough else 1):
             if not check_from_path(run, sc, i):
+                return
+        for i in range(10 if thorough else 2):
+            if not check_paths(run, sc, i):
                 return
 
 
